@@ -1040,6 +1040,10 @@ fn server_props(r: &mut Rd, allowed: &[u8], server_publish: bool) -> Result<Vec<
     while pr.left() > 0 {
         match read_prop(&mut pr) {
             Ok(p) => props.push(p),
+            // a CONNACK's properties are all read during the handshake: one whose value runs past the
+            // block is a field running past its container. (Other packets' property blocks are
+            // decoded lazily, when the application iterates them.)
+            Err(e) if e.contains("past packet") && allowed == P_CONNACK => return Err(Class::MustReject("property value runs past the property block")),
             Err(_) => return Err(Class::DontCare("malformed content inside property block")),
         }
     }
@@ -1093,6 +1097,8 @@ pub fn classify_server(frame: &[u8], rx_cap: usize) -> Class {
             let reason = past!(r.u8());
             let props = match server_props(&mut r, P_CONNACK, false) {
                 Ok(p) => p,
+                // a refusing CONNACK may be reported by its reason code before its properties are read
+                Err(Class::MustReject("property value runs past the property block")) if reason >= 0x80 => return Class::DontCare("malformed properties in a refusing CONNACK"),
                 Err(c) => return c,
             };
             if r.left() != 0 {
@@ -1351,5 +1357,18 @@ mod tests {
         assert!(decode_client(&g).is_ok());
         g[0] = 0x8A;
         assert!(decode_client(&g).is_err());
+    }
+}
+
+#[cfg(test)]
+mod surplus_tests {
+    use super::*;
+    #[test]
+    fn lone_identifier_is_rejected() {
+        for f in [vec![0x20u8, 0x04, 0x00, 0x00, 0x01, 0x26], vec![0x20, 0x04, 0x00, 0x00, 0x01, 0x21], vec![0x20, 0x07, 0x00, 0x00, 0x04, 0x21, 0x00, 0x05, 0x27]] {
+            let c = classify_server(&f, 128);
+            println!("{:02x?} -> {:?}", f, c);
+            assert!(matches!(c, Class::MustReject(_)));
+        }
     }
 }
